@@ -4,7 +4,12 @@
 (*                                                                         *)
 (* TRACE_FILE holds a JSON array of events                                 *)
 (*   [id, obj, k, pre, msg, post, status, warns, ser_eq, intact, cls,      *)
-(*    completed_eq]          k: "merge" | "remerge" | "reload" | "idle"    *)
+(*    completed_eq, acc_eq, expose_intact]                                 *)
+(*    k: "merge" | "remerge" | "reload" | "idle" | "observe"               *)
+(*    intact        : every live message object still serialises as parsed *)
+(*    expose_intact : ... and still exposes the same targets/sources       *)
+(*    acc_eq        : (reload) the library's accessors agree between the   *)
+(*                    live object and the object read back                 *)
 (* recorded at the return of the public call (error path included).        *)
 (* Every event is judged in TLA+ (MosJudge!Failing) against Merge(pre,msg) *)
 (* and the per-property lenses; the verdict is total (all clauses, every   *)
@@ -29,8 +34,9 @@ Init == l = 1 /\ cur = [o \in {} |-> NoState]
 StepFailing(ev) ==
   CASE ev.k \in {"merge", "remerge"} ->
          Failing(ev) \o (IF ev.intact THEN <<>> ELSE <<"msg_intact">>)
+                     \o (IF ev.expose_intact THEN <<>> ELSE <<"msg_expose">>)
     [] ev.k = "reload" ->
-         (IF ev.status = "ok" /\ ev.post = ev.pre /\ ev.ser_eq THEN <<>> ELSE <<"reload_identity">>)
+         (IF ev.status = "ok" /\ ev.post = ev.pre /\ ev.ser_eq /\ ev.acc_eq THEN <<>> ELSE <<"reload_identity">>)
          \o (IF ev.status = "ok" /\ ev.cls = "RunningOrder" /\ ev.completed_eq
              THEN <<>> ELSE <<"reload_completed">>)
     [] OTHER -> <<>>            \* "idle": only continuity is checked
